@@ -146,7 +146,7 @@ def obsUrl (H : Heap) (i : Nat) : String :=
     "|".intercalate [
       hx (href u false), hx (href u true), hx (protocol u), hx u.scheme, hx u.username, hx u.password,
       hx (hostG u), hx (hostname u), hx (portG u), toString (decodedPortG o.cfg u), hx (pathname u), b01 u.path.opq,
-      hx (search u), hx (queryG u), hx (hash u), hx (fragmentG u), b01 (o.cfg.isSpecial u.scheme), b01 (isIPv4 o.cfg u), b01 (isIPv6 u),
+      hx (search u), hx (queryG u), hx (hashG u), hx (fragmentG u), b01 (o.cfg.isSpecial u.scheme), b01 (isIPv4 o.cfg u), b01 (isIPv6 u),
       nilBits, ",".intercalate (u.path.segs.map hx), toString u.decodedPort, sp,
       ",".intercalate (u.verrs.map fun e => s!"{e.t.idx}.{b01 e.failure}")]
 
